@@ -67,7 +67,62 @@ def split_ops(lines):
             cur["nc"] = (int(t[1]), int(t[2]))
         elif l == "PANIC":
             cur["panic"] = True
+        elif l.startswith(("XINV ", "XCALL ")):
+            cur.setdefault("calls", []).append(l.split())
     return ops
+
+
+def api_timer_contract(ops):
+    """C07 at the API level: what the handlers ASKED for (XINV / XCALL lines written by the harness's processes
+    themselves, independently of Context) against what the trace shows happened.  Per (process, name): set_timer makes
+    the name pending, set_timer_once only if it is not, cancel_timer frees it, a firing needs a pending name and frees
+    it before the handler runs; a crash of the node frees every name of its processes."""
+    from collections import deque
+    fails = []
+    pending = {}         # (proc, name) -> True
+    node_of = {}
+    invs = {}            # proc -> deque of call lists (one per handler invocation, in order)
+    any_calls = False
+    for o in ops:
+        cur = None
+        for c in o.get("calls", []):
+            any_calls = True
+            if c[0] == "XINV":
+                cur = []
+                invs.setdefault(int(c[1]), deque()).append(cur)
+            elif cur is not None:
+                cur.append(c)
+        for (kind, f, m) in o["logs"]:
+            proc = None
+            if kind == "ProcessStarted":
+                node_of[f[2]] = f[1]
+                for k in [k for k in pending if k[0] == f[2]]:
+                    del pending[k]
+            elif kind == "NodeCrashed":
+                for k in [k for k in pending if node_of.get(k[0]) == f[1]]:
+                    del pending[k]
+            elif kind == "MessageReceived":
+                proc = f[5]
+            elif kind == "LocalMessageReceived":
+                proc = f[2]
+            elif kind == "TimerFired":
+                proc, nm = f[4], f[2]
+                if not pending.pop((proc, nm), False):
+                    fails.append(("C07:api_contract", "timer %d of process %d fired although, by the calls its handlers made, "
+                                  "no timer of that name was pending (cancelled, or never set)" % (nm, proc)))
+            if proc is not None and any_calls:
+                q = invs.get(proc)
+                if not q:
+                    continue          # a process that does not log its calls (Python twin)
+                for c in q.popleft():
+                    nm = int(c[3])
+                    if c[2] == "SET":
+                        pending[(proc, nm)] = True
+                    elif c[2] == "SETONCE":
+                        pending.setdefault((proc, nm), True)
+                    elif c[2] == "CANCEL":
+                        pending.pop((proc, nm), None)
+    return fails
 
 
 def monitor(sc, impl_lines):
@@ -322,10 +377,11 @@ def monitor(sc, impl_lines):
             fail("C05:same_node", "message %d inside a node was dropped" % mid)
         if final_is_drain and not crash_events and not s["drop_at_send"] and s["recv"] == 0:
             fail("C05:delivered", "message %d was neither dropped nor delivered although the queue was drained and no node crashed" % mid)
+    fails.extend(api_timer_contract(ops))
     return fails
 
 
 CLAUSES = ["C05:sent_before", "C05:link_enabled", "C05:payload", "C05:copies", "C05:drop_rate", "C05:same_node",
            "C05:delivered", "C06:time_monotone", "C06:arrival", "C06:timer_exact", "C06:step", "C06:steps", "C06:duration",
-           "C06:until_no_events", "C06:until_local", "C07:timer_contract", "C08:inflight_cancelled",
+           "C06:until_no_events", "C06:until_local", "C07:timer_contract", "C07:api_contract", "C08:inflight_cancelled",
            "C08:silent_while_crashed", "C17:ids", "C17:one_fate", "C17:counters", "C17:read_local"]
